@@ -5,6 +5,7 @@ package mgr
 import (
 	"encoding/json"
 	"fmt"
+	"sort"
 	"strings"
 
 	"verifh/fw"
@@ -137,6 +138,10 @@ func eExec(m mix) (res eResult) {
 		}
 		conf, err := world.ParseConf(fileConf(m, ""))
 		if err != nil {
+			if want.Dup || want.DupOff {
+				loadErr = fmt.Errorf("config file rejected at start-up: %w", err)
+				return
+			}
 			w.HarnessErr = "config: " + err.Error()
 			return
 		}
@@ -176,6 +181,41 @@ func eExec(m mix) (res eResult) {
 			vio("missing-error", "E:unknown-source:tasks-with-error", "loadTasks returned an error AND a task list\n"+describe())
 		} else {
 			res.outcome = "error:unknown-source"
+		}
+	case loadErr != nil && (want.Dup || want.DupOff):
+		res.outcome = "error:duplicate-source-ref" // a start-up error satisfies the property
+	case want.Dup:
+		// no error: exactly one task per distinct pair, carrying the start/stop of one of the references
+		perPair := map[string]int{}
+		canon := make([]string, 0, len(got))
+		for _, g := range got {
+			pair := strings.SplitN(g, " ", 2)[0]
+			perPair[pair]++
+			for _, a := range want.Alts[pair] {
+				if a == g {
+					g = want.Alts[pair][0]
+				}
+			}
+			canon = append(canon, g)
+		}
+		sort.Strings(canon)
+		twice := ""
+		for pair, n := range perPair {
+			if n > 1 && (twice == "" || pair < twice) {
+				twice = pair
+			}
+		}
+		rng := "different-ranges"
+		if want.DupSame {
+			rng = "same-range"
+		}
+		switch {
+		case twice != "":
+			vio("duplicate-pair", "E:task-set:duplicate-pair:"+rng, fmt.Sprintf("an integration names a source twice and loadTasks silently returned %d tasks for the ONE pair %s (neither one task nor a start-up error)\n%s", perPair[twice], twice, describe()))
+		case !sameStrings(canon, want.Tasks):
+			vio("task-set", "E:task-set:"+eClass(m, canon, want.Tasks)+":duplicate-source-ref", describe())
+		default:
+			res.outcome = fmt.Sprintf("ok:%d-tasks:one-per-pair", len(got))
 		}
 	case loadErr != nil:
 		if want.Lenient && strings.Contains(loadErr.Error(), "finding source") {
@@ -245,6 +285,7 @@ func eJobs(thorough bool) []eJob {
 		}
 	}
 	jobs = append(jobs, familyJobs()...)
+	jobs = append(jobs, dupJobs()...)
 	return jobs
 }
 
@@ -334,6 +375,74 @@ func familyJobs() []eJob {
 				}
 			}
 			jobs = append(jobs, j)
+		}
+	}
+	return jobs
+}
+
+// ---- an integration that names the SAME source more than once ------------------------------------------
+//
+// A source listed twice is still one referenced source. dupJobs: reference lists {s1 s1 (same range), s1 s1
+// (different ranges), s1 s2 s1, s2 s1 s1, s1 s1 s1} x where the integration lives {file, database, file
+// disabled, database disabled, file with a plain database row of the same name, plain file with the
+// repeating database row shadowed} x a second plain integration {absent, file, database} x source placements
+// x batch/concurrency x stored form.
+func dupJobs() []eJob {
+	rr := func(n string, a, z uint64) refSpec { return refSpec{Name: n, Start: a, Stop: z} }
+	lists := [][]refSpec{
+		{rr("s1", 10, 20), rr("s1", 10, 20)},
+		{rr("s1", 10, 20), rr("s1", 30, 40)},
+		{rr("s1", 10, 20), rr("s2", 11, 21), rr("s1", 30, 0)},
+		{rr("s2", 11, 21), rr("s1", 10, 20), rr("s1", 10, 20)},
+		{rr("s1", 0, 0), rr("s1", 0, 0), rr("s1", 5, 0)},
+	}
+	plain := []refSpec{rr("s1", 70, 80)}
+	var jobs []eJob
+	for _, l := range lists {
+		for place := 0; place < 6; place++ {
+			for second := 0; second < 3; second++ {
+				var base mix
+				dup := func(en bool) igSpec { return igSpec{Name: "iga", Enabled: en, Refs: l} }
+				switch place {
+				case 0:
+					base.FileIGs = append(base.FileIGs, dup(true))
+				case 1:
+					base.DBIGs = append(base.DBIGs, dup(true))
+				case 2:
+					base.FileIGs = append(base.FileIGs, dup(false))
+				case 3:
+					base.DBIGs = append(base.DBIGs, dup(false))
+				case 4:
+					base.FileIGs = append(base.FileIGs, dup(true))
+					base.DBIGs = append(base.DBIGs, igSpec{Name: "iga", Enabled: true, Refs: plain})
+				case 5:
+					base.FileIGs = append(base.FileIGs, igSpec{Name: "iga", Enabled: true, Refs: plain})
+					base.DBIGs = append(base.DBIGs, dup(true))
+				}
+				switch second {
+				case 1:
+					base.FileIGs = append(base.FileIGs, *mkIG("igb", true, []string{"s1"}, 110))
+				case 2:
+					base.DBIGs = append(base.DBIGs, *mkIG("igb", true, []string{"s2"}, 130))
+				}
+				var j eJob
+				for p1 := 1; p1 <= 3; p1++ {
+					for p2 := 1; p2 <= 2; p2++ {
+						for _, bc := range []bool{false, true} {
+							for _, stored := range []bool{false, true} {
+								if stored && len(base.DBIGs) == 0 {
+									continue
+								}
+								m := base
+								m.FileSrcs, m.DBSrcs = srcMix(p1, p2, bc)
+								m.Stored = stored
+								j.Mixes = append(j.Mixes, m)
+							}
+						}
+					}
+				}
+				jobs = append(jobs, j)
+			}
 		}
 	}
 	return jobs
